@@ -207,7 +207,7 @@ static void ext_handler(rfbClientPtr cl) {
   rfbWriteExact(cl, "EXT!", 4);
   rfbCloseClient(cl);
 }
-#define MAXEXT 8
+#define MAXEXT 256
 static rfbSecurityHandler extHandlers[MAXEXT];
 static int extUsed[MAXEXT];
 
